@@ -572,8 +572,8 @@ _ADD = {
             " INITLIVE: mpt_identifier_init() is applied only in constructors, in type_traits init operations, to locals, or to memory allocated by the caller: never to `*this` of another member function or to an object handed in."),
     "C17": ([{"run": rules_path.run_fraglocate, "floor": 1, "use_anchor_files": True}, {"run": rules_path.run_fragadopt, "floor": 3, "use_anchor_files": True}],
             " FRAGLOCATE: a loop that reduces an offset by fragment lengths to find the fragment holding it runs while offset >= length. FRAGADOPT: where a continuation fragment becomes the base part, `cont` is stepped past it on every path to the exit."),
-    "C19": ([{"run": rules_iter.run_parkrestore, "floor": 6, "use_anchor_files": True}, {"run": rules_table.run_typemap, "floor": 120, "scope": "anchors"}],
-            " PARKRESTORE: typestate with trace partitioning over the parked-byte marker of the text iterator: the marker is dropped only after the parked byte was put back or the marker was tested null. TYPEMAP (see C06) for the id -> size switch of mpt_iterator_consume."),
+    "C19": ([{"run": rules_iter.run_derivedfield, "floor": 2, "use_anchor_files": True}, {"run": rules_iter.run_parkrestore, "floor": 6, "use_anchor_files": True}, {"run": rules_table.run_typemap, "floor": 120, "scope": "anchors"}],
+            " DERIVEDFIELD: a pointer member that is computed from an integer member of the same object and read by a function that does not compute it is stored again (or recomputed by a callee handed the object) in every function that stores the integer member. PARKRESTORE: typestate with trace partitioning over the parked-byte marker of the text iterator: the marker is dropped only after the parked byte was put back or the marker was tested null, and no callee is handed the text through the marker while a byte is parked. TYPEMAP (see C06) for the id -> size switch of mpt_iterator_consume."),
     "C20": ([{"run": rules_layout.run_resetsame, "floor": 20}], " RESETSAME: in the branch a setter takes for one property name the members stored on the no-source (reset) path overlap the members the value path writes or hands to its parser. ERRFX now also covers the helpers a setter hands a pointer into its object to (colour, attribute, string and position parsers): calls of writers whose result is discarded count as stores, and calls that only inspect their arguments (strlen, strncasecmp, isspace ..) do not excuse a store made before them."),
 }
 # option values are kept by the generic-info metatype: its size computation belongs to "values of any length"
